@@ -27,6 +27,10 @@ func NewWatcherForVerif(proposals proposalstore.Store) *Watcher {
 }
 
 // NewConfigurationWatcherForVerif builds the configuration store watcher of the proposal controller
-func NewConfigurationWatcherForVerif(configurations configuration.Store) *ConfigurationWatcher {
-	return &ConfigurationWatcher{configurations: configurations}
+func NewConfigurationWatcherForVerif(configurations configuration.Store, proposals ...proposalstore.Store) *ConfigurationWatcher {
+	w := &ConfigurationWatcher{configurations: configurations}
+	if len(proposals) > 0 {
+		w.proposals = proposals[0]
+	}
+	return w
 }
